@@ -42,7 +42,7 @@ add("C04/discriminator/branch-not-struct",
     "small safe fix: `if !referredType.IsStruct() { return nil, error }`")
 add("C04/discriminator/non-string-constant",
     "discriminator field holding a non-string constant (`kind: 1`): buildDiscriminatorMapping asserts Value.(string) / ReferenceValue.(string)",
-    r"frame=internal/ast/compiler\.\(\*DisjunctionInferMapping\)\.buildDiscriminatorMapping msg=interface conversion",
+    r"route=(ir|passes-yaml|veneers-yaml|config) .*frame=internal/ast/compiler\.\(\*DisjunctionInferMapping\)\.buildDiscriminatorMapping msg=interface conversion",
     "harness c04-run streams=pyaml seed=2 passes-yaml/2/2816 — Lean witness C04.wDiscriminatorNonString",
     "small safe fix: comma-ok assertions")
 add("C04/alias-cycle/stack-overflow",
@@ -55,7 +55,7 @@ add("C04/recursive-union/stack-overflow",
     "Lean witness C04.wRecursiveUnion; mutation `ref=#/definitions/X` inside its own oneOf, e.g. seed 1 mut/75")
 add("C04/recursive-type/jenny-stack-overflow",
     "recursive type reached through arrays / references in a jenny (`#A: [...#A]`, self-referencing definitions): python fromJSONForType, java formatArray, languages.Context.ResolveToComposableSlot recurse through references without a visited set (stack overflow), the Go / PHP type templates expand it until memory runs out (runaway: watchdog timeout or `out of memory`)",
-    r"outcome=(crash|timeout) frame=((recursion|hang):internal/(jennies/|languages\.)\S* msg=(fatal error: stack overflow|no result within the watchdog time)|internal/jennies/\S* msg=fatal error: out of memory)",
+    r"(outcome=(crash|timeout) frame=(recursion:internal/(jennies/\w+\.(RawTypes|\(\*?typeFormatter\)|\(\*?RawTypes\))\.\w+|languages\.\(\*?Context\)\.\w+)|hang:internal/jennies/\w+\.\(?\*?RawTypes\)?\.\w+) msg=(fatal error: stack overflow|no result within the watchdog time)|frame=internal/jennies/template\.\(\*Template\)\.Render msg=fatal error: out of memory)",
     "./check C04 --replay corpus:corpus/cue-recursive-array   (`#A: [...#A]`)")
 add("C04/openapi/library-stack-overflow",
     "OpenAPI schema that contains itself under anyOf/oneOf (`Array: {anyOf: [.., {$ref: Array}]}`) with validation on: kin-openapi's Schema.IsEmpty / validation recurses forever (third-party code, but the cog run dies with a Go stack overflow)",
